@@ -205,12 +205,48 @@ def eval_fun_q(f, p):
     if f["t"] == "quad":
         s = sum(x * x for x in p)
         return [(cvq(c)[0] * s, cvq(c)[1] * s) for c in f["c"]]
+    if f["t"] == "failat":
+        if [F(x) for x in f["centre"]] == list(p):
+            return [(F(0), F(0))] * f["badlen"]
+        return eval_fun_q(f["base"], p)
     return [cvq(f["v"])] * f["len"]
+
+
+def gen_failat(rng, m, nv, dtype):
+    """a valid function of position that goes wrong at ONE cell (first, last or any, in mesh order)"""
+    n = m["n"]
+    order = x_indices(n)
+    pos = rng.choice([len(order) - 1, len(order) - 1, rng.randrange(len(order)), rng.randrange(len(order)), 0])
+    idx = order[pos]
+    _, _, cell = geom(m)
+    # a string converts to True in a Boolean array (dtype casting is outside the property): not for bool
+    mode = rng.choice(["len", "raise"] + (["str"] if dtype != "bool" else []) + (["scalar"] if nv > 1 else []))
+    badlen = 1 if mode == "scalar" else (rng.choice([k for k in (0, 2, 3, 4, 5) if k != nv]) if mode == "len" else nv + 1)
+    return dict(t="failat", base=gen_fun(rng, len(n), nv, dtype), idx=idx, pos=pos,
+                centre=[S(x) for x in centre(m, idx)], quarter=S(min(cell) / 4), mode=mode, badlen=badlen)
 
 
 def py_fun(f, dtype, style=0):
     def as_pts(p):
         return [float(x) for x in np.atleast_1d(p)]
+    if f["t"] == "failat":
+        base = py_fun(f["base"], dtype, style)
+        ctr = [fl(x) for x in f["centre"]]
+        q = fl(f["quarter"])
+        mode, badlen = f["mode"], f["badlen"]
+
+        def failing(p):
+            pp = as_pts(p)
+            if all(abs(x - c) < q for x, c in zip(pp, ctr)):
+                if mode == "raise":
+                    raise RuntimeError("value undefined here")
+                if mode == "str":
+                    return "abc"
+                if mode == "scalar":
+                    return 0
+                return [0] * badlen
+            return base(p)
+        return failing
     if f["t"] == "affine":
         c = [pyval(v, "complex" if dtype == "complex" else "float") for v in f["c"]]
         A = [[pyval(v, "complex" if dtype == "complex" else "float") for v in row] for row in f["A"]]
@@ -256,10 +292,14 @@ def fun_coq(f):
         return f'(FAffine {cvl(f["c"])} {cvll(f["A"])})'
     if f["t"] == "quad":
         return f'(FQuad {cvl(f["c"])})'
+    if f["t"] == "failat":
+        return f'(FBadAt {fun_coq(f["base"])} {g.ql(f["centre"])} {g.nat(f["badlen"])})'
     return f'(FConstLen {cvc(f["v"])} {g.nat(f["len"])})'
 
 
 def fun_scale(f, m):
+    if f["t"] == "failat":
+        return fun_scale(f["base"], m)
     lo, hi, _ = geom(m)
     pm = max([abs(x) for x in lo + hi] + [F(1)])
     if f["t"] == "affine":
@@ -440,6 +480,19 @@ def py_simple(s, dtype):
         arr = np.array([pyval(v, dtype) for v in s["data"]], dtype=DT[dtype]).reshape(*s["mesh"]["n"], s["nv"])
         return df.Field(sm, nvdim=s["nv"], value=arr, dtype=DT[dtype])
     if k == "bad":
+        if s["what"] in ("ragged", "objarr"):
+            sh = s["sh"]
+            a = np.arange(1, math.prod(sh) + 1).reshape(sh)
+            if s["what"] == "objarr":
+                a = a.astype(object)
+                a[tuple(k - 1 for k in sh)] = "x"          # the LAST element cannot be converted
+                return a
+            lst = a.tolist()
+            inner = lst
+            for _ in range(len(sh) - 1):
+                inner = inner[-1]
+            inner.pop()                                      # the LAST row is one element short
+            return lst
         return {"str": "abc", "none": None, "object": object()}[s["what"]]
     raise ValueError(k)
 
@@ -602,6 +655,8 @@ def expect_simple(s, m, nv):
         f = s["f"]
         if f["t"] == "constlen" and f["len"] != nv:
             return REJECT
+        if f["t"] == "failat":
+            return REJECT        # evaluated at every cell of the mesh, one of them goes wrong
         return lambda i: [eval_fun_q(f, centre(m, i))]
     if k == "field":
         sm = s["mesh"]
@@ -630,7 +685,12 @@ def expect(s, m, nv):
     d = s["default"]
     de = None
     if d is not None:
-        if d["k"] == "fun":
+        if d["k"] == "fun" and d["f"]["t"] == "failat":
+            # a callable default is evaluated only at the cells no listed subregion covers
+            if not any(all(a <= j < b for j, a, b in zip(d["f"]["idx"], sub[3], sub[4])) for sub, _ in listed):
+                return REJECT
+            de = expect_simple(dict(d, f=d["f"]["base"]), m, nv)
+        elif d["k"] == "fun":
             de = expect_simple(d, m, nv)
         elif d["k"] == "field":
             # a field used as default is sampled at the cell centre
@@ -897,6 +957,66 @@ def generate(rng, tier):
             cases.append(dict(kind="init", mesh=m, nv=nv, dtype=dtype, spec=s1, via="ctor"))
             for via in ("setter", "update"):
                 cases.append(dict(kind="assign", mesh=m, nv=nv, dtype=dtype, s0=s0, s1=s1, via=via))
+    # -- specifications that fail LATE (after part of the cells have been processed): the refused call
+    #    must leave array, validity, dtype and labels as they were
+    for k in range(N):
+        m = gen_mesh(rng, tier, exact=True)
+        nv, dtype = gen_nv_dtype(rng)
+        s0 = gen_simple(rng, m, nv, dtype, kind=rng.choice(["arr", "fun", "vec"]))
+        r = rng.random()
+        if r < 0.45 or not m["subs"]:
+            if r < 0.35 or not m["subs"]:
+                s1 = dict(k="fun", f=gen_failat(rng, m, nv, dtype), style=rng.randint(0, 2), cls="fun-failat")
+            else:
+                s1 = dict(k="bad", what=rng.choice(["ragged", "objarr"]), sh=list(m["n"]) + [nv], cls="bad-late")
+        else:
+            items = []
+            bad_at = rng.randrange(len(m["subs"]))
+            for j, sub in enumerate(m["subs"]):
+                sm = dict(exact=True, p1=sub[1], p2=sub[2], n=[b_ - a_ for a_, b_ in zip(sub[3], sub[4])],
+                          tf=m["tf"], dims=m.get("dims"), subs=[], scale=m["scale"])
+                if j == bad_at and r < 0.8:
+                    what = rng.choice(["failat", "failat", "badlen", "fun-len", "bad"])
+                    if what == "failat":
+                        sv = dict(k="fun", f=gen_failat(rng, sm, nv, dtype), style=0, cls="fun-failat")
+                    else:
+                        sv = gen_simple(rng, sm, nv, dtype, kind=what, in_dict=True)
+                else:
+                    sv = gen_simple(rng, sm, nv, dtype, kind=rng.choice(["vec", "arr", "fun"]), in_dict=True)
+                items.append([sub[0], sv])
+            if r < 0.8:
+                d = rng.choice([None, dict(k="arr", sh=[nv], data=[gen_val(rng, dtype) for _ in range(nv)],
+                                           cls="vec", py="tuple")])
+            else:
+                d = dict(k="fun", f=gen_failat(rng, m, nv, dtype), style=0, cls="fun-failat")
+            s1 = dict(k="dict", items=items, default=d, cls="dict-late")
+        for via in ("setter", "update"):
+            cases.append(dict(kind="assign", mesh=m, nv=nv, dtype=dtype, s0=s0, s1=s1, via=via))
+        cases.append(dict(kind="init", mesh=m, nv=nv, dtype=dtype, spec=s1, via=rng.choice(["ctor", "update"])))
+    # -- lines with non-dyadic end points that start / end ON faces and corners of the region
+    for k in range(N * 4):
+        m = gen_mesh(rng, tier, nd=rng.choice([1, 2, 2, 3]), exact=rng.random() < 0.6, with_subs=False, maxcells=64)
+        if rng.random() < 0.3:      # a region with its lower corner in the origin
+            lo_, hi_, _c = geom(m)
+            m = dict(m, p1=[S(0) for _ in lo_], p2=[S(h - l) for l, h in zip(lo_, hi_)])
+        nv = rng.choice([1, 2, 3])
+        spec = gen_simple(rng, m, nv, "float", kind="arr")
+        lo, hi, cell = geom(m)
+        nd = len(lo)
+        a_ = [F(float(l) + round(rng.uniform(0.02, 0.98), rng.choice([1, 2, 3])) * float(h - l)) for l, h in zip(lo, hi)]
+        b_ = []
+        for ax in range(nd):
+            r = rng.random()
+            if r < 0.5:
+                b_.append(lo[ax])
+            elif r < 0.8:
+                b_.append(hi[ax])
+            else:
+                b_.append(F(float(lo[ax]) + round(rng.uniform(0.02, 0.98), 2) * float(hi[ax] - lo[ax])))
+        if rng.random() < 0.4:
+            a_, b_ = b_, a_
+        cases.append(dict(kind="lineS", mesh=m, nv=nv, dtype="float", spec=spec, p1=[S(x) for x in a_],
+                          p2=[S(x) for x in b_], npts=rng.randint(2, 60)))
     # -- scalar arrays in both spellings (shape n and shape n + [1]), every layout / element type,
     #    at all three entry points
     for k in range(N // 2):
@@ -1268,6 +1388,8 @@ def run_case(c):
             rec.update(obs=dict(err=f), coq=None, oracle=["valid-spec-rejected"], key="assign/setup-failed")
             return rec
         before = f.array.copy()
+        state0 = (f.valid.copy(), f.array.dtype, f.dtype, None if f.vdims is None else list(f.vdims), f.unit,
+                  f.nvdim, dict(f.vdim_mapping))
         val = py_spec(s1, dtype)
         snap = snapshot(val)
         if c["via"] == "setter":
@@ -1287,7 +1409,11 @@ def run_case(c):
         else:
             if e != REJECT and e != UNSPEC:
                 rec["oracle"].append("valid-spec-rejected")
-            if after.shape != before.shape or not np.array_equal(after, before) or after.dtype != before.dtype:
+            state1 = (f.valid, f.array.dtype, f.dtype, None if f.vdims is None else list(f.vdims), f.unit,
+                      f.nvdim, dict(f.vdim_mapping))
+            if after.shape != before.shape or not np.array_equal(after, before) or after.dtype != before.dtype \
+                    or not np.array_equal(state0[0], state1[0]) or state0[0].dtype != state1[0].dtype \
+                    or state0[1:] != state1[1:]:
                 rec["oracle"].append("failed-assignment-changed-field")
         obs = dict(ok=st == "ok", after=enc_arr(after), dtype=str(after.dtype))
         cls = s1.get("cls", "dict")
@@ -1377,6 +1503,49 @@ def run_case(c):
             rec["oracle"].append("iteration-order")
         rec.update(obs=obs, coq=f'CIter {mesh_coq(m)} {g.nat(nv)} {spec_coq(spec)} {cvll(obs["values"])}',
                    key=f'iter/{tuple(n)}/{nv}/{dtype}')
+        return rec
+
+    if kind == "lineS":
+        p1q, p2q = [F(x) for x in c["p1"]], [F(x) for x in c["p2"]]
+        k = c["npts"]
+        tol = F(1, 10 ** 9) * max([abs(x) for x in lo + hi] + [F(1)])
+        st, line = attempt(lambda: f.line(pt(m, c["p1"]), pt(m, c["p2"]), n=k))
+        if st == "ok":
+            data = line.data
+            dims = list(f.mesh.region.dims)
+            pts = [[F(float(data[d].iloc[j])) for d in dims] for j in range(len(data))]
+            vcols = [col for col in data.columns if col != "r" and col not in dims]
+            vals = [[enc(data[col].iloc[j]) for col in vcols] for j in range(len(data))]
+            rs = [F(float(x)) for x in data["r"]]
+            obs = dict(points=[[S(x) for x in p] for p in pts], values=vals, n=int(line.n))
+            coq_obs = f"(Some ({g.qll(obs['points'])}, {cvll(vals)}))"
+            if len(pts) != k or line.n != k:
+                rec["oracle"].append("line-point-count")
+            else:
+                L2 = sum((b - a) ** 2 for a, b in zip(p1q, p2q))
+                for j in range(k):
+                    want = [a + F(j, k - 1) * (b - a) for a, b in zip(p1q, p2q)]
+                    if any(abs(x - w) > tol for x, w in zip(pts[j], want)):
+                        rec["oracle"].append("line-end-points" if j in (0, k - 1) else "line-not-equidistant")
+                    if rs[j] < 0 or abs(rs[j] ** 2 - F(j, k - 1) ** 2 * L2) > F(1, 10 ** 8) * max(L2, tol * tol):
+                        rec["oracle"].append("line-distance")
+                    # EVERY value: the stored value of a cell whose closed extent contains the point
+                    per_axis = [[i for i in range(n[a]) if lo[a] + i * cell[a] - tol <= pts[j][a] <= lo[a] + (i + 1) * cell[a] + tol]
+                                for a in range(len(n))]
+                    got = vals[j]
+                    if not any(enc_arr(f.array[idx]) == got for idx in itertools.product(*per_axis)):
+                        rec["oracle"].append("line-values")
+                if len(vcols) != nv:
+                    rec["oracle"].append("line-value-columns")
+        else:
+            obs = dict(err=line)
+            coq_obs = "None"
+            rec["oracle"].append("line-rejected")
+        rec["oracle"] = sorted(set(rec["oracle"]))
+        on_lo = sum(1 for a in range(len(n)) if p1q[a] == lo[a] or p2q[a] == lo[a])
+        rec.update(obs=obs, coq=f'CLineS {g.q(tol)} {mesh_coq(m)} {g.nat(nv)} {spec_coq(spec)} {g.ql(c["p1"])} '
+                                f'{g.ql(c["p2"])} {g.z(k)} {coq_obs}',
+                   key=f'lineS/{len(n)}/{nv}/{exact}/{on_lo}/{k}/{st}')
         return rec
 
     if kind == "line":
